@@ -220,11 +220,17 @@ def bounded(ctx):
         pass
     except Exception as ex:
         viol.append(dict(name="two_level_setup", what="two-level assembly could not be run: %r" % (ex,), case={}))
+    # the shared scenarios: this property's oracle over the cross product of the unusual input dimensions
+    from bounded import scenarios as sn
+    n_sw, d_sw, v_sw = sn.sweep(ctx, ns, 'provenance')
+    evals += n_sw
+    distinct |= {("shared",) + tuple(map(str, k_)) for k_ in d_sw}
+    viol.extend(v_sw)
     uniq = {}
     for v_ in viol:
         uniq.setdefault(v_["name"], v_)
     return dict(evaluations=evals, distinct_nontrivial=len(distinct),
-                rule="BsaI/BsmBI/BpiI vector + chains of 1-3 modules at random rotations, three id/name choices (default, custom, "
+                rule="" + sn.SWEEP_RULE + "; BsaI/BsmBI/BpiI vector + chains of 1-3 modules at random rotations, three id/name choices (default, custom, "
                      "16-character id), sometimes an unused module; checked: circular record, id/name, topology, comment names the "
                      "vector and every supplied module, one generated source feature per retained fragment, coverage of every "
                      "nucleotide exactly once, each stretch occurs verbatim in the plasmid it names, real Bio.SeqIO GenBank "
